@@ -10,7 +10,7 @@
 From Coq Require Import String.
 From AwVerif Require Import Base.Prelude Model.PyStr Model.Query Model.QueryRef
   Proofs.QueryRefStr Proofs.QueryRefScan Proofs.QueryRefToken Proofs.QueryRefParse
-  Proofs.QueryRefLoops Proofs.QueryRefTerm Proofs.QueryExamples Proofs.QueryRefExamples.
+  Proofs.QueryRefLoops Proofs.QueryRefDict Proofs.QueryRefTerm Proofs.QueryRefProg Proofs.QueryExamples Proofs.QueryRefExamples.
 Open Scope Z_scope.
 
 (* String literals: QString.check stops exactly at the closing quote of a printed literal (any
@@ -55,20 +55,55 @@ Theorem C11_parse_args_exact : forall lay, wf_layout lay -> forall md ns args,
 Proof. exact parse_args_exact. Qed.
 Print Assumptions C11_parse_args_exact.
 
-(* parse (print t) = t for every layout and every well-formed term without dict literals,
-   at any nesting depth, given the fuel parse_stmt hands out. *)
-Theorem C11_parse_print_partial : forall lay, wf_layout lay -> forall md ns t, no_dict t -> wf md t ->
+(* The dict-entry loop rebuilds every (key, value) pair in written order. *)
+Theorem C11_parse_dict_exact : forall lay, wf_layout lay -> forall md ns d,
+  Forall (fun e => P lay md ns (snd e)) d -> Forall (entry_wf md) d -> d <> [] ->
+  forall p i b e acc fuel, forallb is_space b = true -> forallb is_space e = true ->
+  keys_distinct (map (fun x => snd (fst x)) d) ->
+  (forall x, In x d -> ~ In (snd (fst x)) (map fst acc)) ->
+  (2 * List.length (b ++ sep_core lay (prd lay) p i d ++ e) + 2 <= fuel)%nat ->
+  parse_dict md ns fuel (b ++ sep_core lay (prd lay) p i d ++ e) acc = Ok (acc ++ map (entry_tok ns) d).
+Proof. exact parse_dict_exact. Qed.
+Print Assumptions C11_parse_dict_exact.
+
+(* parse (print t) = t for every layout and every well-formed term of every kind (dict literals
+   included), at any nesting depth, given the fuel parse_stmt hands out. *)
+Theorem C11_parse_print_term : forall lay, wf_layout lay -> forall md ns t, wf md t ->
   forall p fuel, (2 * List.length (txt lay p t) + 1 <= fuel)%nat ->
   parse_tok md ns fuel (kind t) (txt lay p t) = Ok (tok_of ns t).
-Proof. exact parse_tok_exact_partial. Qed.
-Print Assumptions C11_parse_print_partial.
+Proof. exact parse_tok_exact. Qed.
+Print Assumptions C11_parse_print_term.
 
-Theorem C11_layout_irrelevant_partial : forall lay1 lay2 md ns t p1 p2 f1 f2,
-  wf_layout lay1 -> wf_layout lay2 -> wf md t -> no_dict t ->
+Theorem C11_layout_irrelevant_term : forall lay1 lay2 md ns t p1 p2 f1 f2,
+  wf_layout lay1 -> wf_layout lay2 -> wf md t ->
   (2 * List.length (txt lay1 p1 t) + 1 <= f1)%nat -> (2 * List.length (txt lay2 p2 t) + 1 <= f2)%nat ->
   parse_tok md ns f1 (kind t) (txt lay1 p1 t) = parse_tok md ns f2 (kind t) (txt lay2 p2 t).
-Proof. exact parse_layout_irrelevant_partial. Qed.
-Print Assumptions C11_layout_irrelevant_partial.
+Proof. exact parse_layout_irrelevant. Qed.
+Print Assumptions C11_layout_irrelevant_term.
+
+(* Statement level: after query()'s strip, parse(statement, namespace) finds the assignment's '='
+   and returns the variable token and the token tree of the expression (every namespace). *)
+Theorem C11_stmt_parse_exact : forall lay, wf_layout lay -> forall md ns i s, wf_stmt md s ->
+  strip (stmt_txt lay i s) <> [] /\
+  parse_stmt md ns (strip (stmt_txt lay i s)) = Ok (tok_of ns (TVar (fst s)), tok_of ns (snd s)).
+Proof. exact stmt_parse_exact. Qed.
+Print Assumptions C11_stmt_parse_exact.
+
+(* query.split(";") cuts a printed program exactly between its statements: the pieces are the
+   printed statements followed by the final blank (no ';' can occur inside a printed statement). *)
+Theorem C11_split_print : forall lay, wf_layout lay -> forall md pg, wf_prog md pg ->
+  split c_semi (print lay pg) = stmt_pieces lay 0 pg ++ [lay [] 0%nat].
+Proof. exact split_print. Qed.
+Print Assumptions C11_split_print.
+
+(* Program level, parse phase: the statements parsed from the printed program (pieces of the
+   split, stripped, empty ones skipped, each through parse() with the fuel the model hands out)
+   are exactly the program's (variable, token tree of the expression) pairs, in order. *)
+Theorem C11_parse_print : forall lay md ns pg, wf_layout lay -> wf_prog md pg ->
+  parse_pieces md ns (split c_semi (print lay pg)) =
+  map (fun s => Ok (tok_of ns (TVar (fst s)), tok_of ns (snd s))) pg.
+Proof. exact parse_print_exact. Qed.
+Print Assumptions C11_parse_print.
 
 (* Non-vacuity, and the full statement on a concrete two-statement program with a list, a dict,
    a string containing a quote, a comma and a bracket, a variable and nested calls, under a
